@@ -211,6 +211,9 @@ pub fn run_c16(env: &Env) -> Report {
                 for s in ph.iter_mut() {
                     let mut pre = String::new();
                     for c in txt.chars() { pre.push(c); let ob = s.key(&mut t, code_for_char(c).unwrap(), 0, 0); let ctx = json!({"stream": "c16", "layout": PHONETIC, "opts": s.opts.bits_str(), "text": pre}); let so = s.opts; check_ansi(env, &mut rep, &so, &pre, &ob, &ctx); rep.eval(Some(&format!("p|{}|{}", s.opts.bits_str(), pre))); }
+                    // an ignored key (keypad Enter has no character) and a backspace return a suggestion for the same / the shortened composition
+                    { let ob = s.key(&mut t, 3612, 0, 0); let ctx = json!({"stream": "c16", "layout": PHONETIC, "opts": s.opts.bits_str(), "text": pre, "then": "keypad Enter"}); let so = s.opts; check_ansi(env, &mut rep, &so, &pre, &ob, &ctx); rep.eval(Some(&format!("pn|{}|{}", s.opts.bits_str(), pre))); }
+                    { let ob = s.backspace(&mut t, false); let mut short = pre.clone(); short.pop(); let ctx = json!({"stream": "c16", "layout": PHONETIC, "opts": s.opts.bits_str(), "text": pre, "then": "backspace"}); let so = s.opts; check_ansi(env, &mut rep, &so, &short, &ob, &ctx); rep.eval(Some(&format!("pb|{}|{}", s.opts.bits_str(), pre))); }
                     s.finish(&mut t);
                 }
             }
@@ -220,6 +223,14 @@ pub fn run_c16(env: &Env) -> Report {
                 for s in fx.iter_mut() {
                     let mut typed = String::new();
                     for (code, md) in &keys { let ob = s.key(&mut t, *code, *md, 0); if let Some(k) = KEYS.iter().find(|k| k.1 == *code) { if let Some(ch) = k.2 { typed.push(ch); } } let ctx = json!({"stream": "c16", "layout": s.layout, "opts": s.opts.bits_str(), "events": s.events}); let so = s.opts; check_ansi(env, &mut rep, &so, &typed, &ob, &ctx); rep.eval(Some(&format!("f|{}|{}", s.opts.bits_str(), typed))); }
+                    // keys that compose nothing in the middle of the word (a number-pad key — without a value when the number-pad option is
+                    // off —, keypad Enter, which no layout binds) and a backspace: what they return is a suggestion for the same composition,
+                    // so its pre-edit text is held to the same rule
+                    for (code, md) in [(76u16, 0u8), (3612, 0), (83, 2)] {
+                        let ob = s.key(&mut t, code, md, 0); let ctx = json!({"stream": "c16", "layout": s.layout, "opts": s.opts.bits_str(), "events": s.events}); let so = s.opts;
+                        let tx = typed.clone() + "\u{1}"; check_ansi(env, &mut rep, &so, &tx, &ob, &ctx); rep.eval(Some(&format!("fn|{}|{}|{}", s.opts.bits_str(), typed, code)));
+                    }
+                    { let ob = s.backspace(&mut t, false); let ctx = json!({"stream": "c16", "layout": s.layout, "opts": s.opts.bits_str(), "events": s.events}); let so = s.opts; let tx = typed.clone() + "\u{1}"; check_ansi(env, &mut rep, &so, &tx, &ob, &ctx); rep.eval(Some(&format!("fb|{}|{}", s.opts.bits_str(), typed))); }
                     s.finish(&mut t); s.events.clear();
                 }
             }
